@@ -4,6 +4,7 @@ import (
 	"encoding/json"
 	"errors"
 	"fmt"
+	"strings"
 
 	"github.com/gebn/bmc"
 	"github.com/gebn/bmc/pkg/ipmi"
@@ -37,6 +38,10 @@ type c12Case struct {
 	// First: if non-nil, a first session with these preferences is opened and
 	// closed on the same connection before the session under test
 	First []int `json:"first,omitempty"`
+	// AdvShift: this many bytes of other records precede the advertisement
+	// (suite 0 - all algorithms None, whose encoding is full of zero bytes -
+	// and fillers), so that record and chunk boundaries fall at every offset
+	AdvShift int `json:"advshift,omitempty"`
 }
 
 func c12Adv(c c12Case) []byte {
@@ -44,6 +49,22 @@ func c12Adv(c c12Case) []byte {
 	order := []int{0, 1, 2, 3}
 	if c.AdvOrder == 1 {
 		order = []int{3, 2, 1, 0}
+	}
+	if c.AdvShift > 0 {
+		// suite 0 first (C0 00 00: three bytes, two of them zero), then 3- and
+		// 4-byte fillers up to the requested shift
+		recs = append(recs, ref.CSRecord{ID: 0, Auth: 0})
+		left := c.AdvShift - 3
+		id := byte(0x60)
+		for left >= 3 {
+			f := ref.CSRecord{ID: id, Auth: 0}
+			if left%3 != 0 && left >= 4 {
+				f.Integs = []byte{0}
+			}
+			left -= len(f.Encode())
+			recs = append(recs, f)
+			id++
+		}
 	}
 	recs = append(recs, ref.CSRecord{ID: 0x81, OEM: true, IANA: 343, Auth: 1, Integs: []byte{3}, Confs: []byte{2, 3}})
 	for _, i := range order {
@@ -138,6 +159,9 @@ func c12One(c c12Case, r *rep.R) (string, string) {
 			nDisc++
 		case "Open Session Request":
 			nOpen++
+			if len(rx.Problems) > 0 {
+				return "C12/proposal-not-well-formed", fmt.Sprintf("preferences %v: the Open Session Request does not name its algorithms as specified: %s", c.Prefs, strings.Join(rx.Problems, "; "))
+			}
 			proposed = &ref.Suite{Auth: byte(rx.Fields["auth"]), Integ: byte(rx.Fields["integ"]), Conf: byte(rx.Fields["conf"])}
 		}
 	}
@@ -219,7 +243,7 @@ func runC12(r *rep.R) {
 			return
 		}
 		key, msg := c12One(c, r)
-		r.Eval(rep.H(fmt.Sprintf("%v|%d|%d|%v|%d|%v", c.Prefs, c.Adv, c.AdvOrder, c.Announce, c.Wildcard, c.First)), true)
+		r.Eval(rep.H(fmt.Sprintf("%v|%d|%d|%v|%d|%v|%d", c.Prefs, c.Adv, c.AdvOrder, c.Announce, c.Wildcard, c.First, c.AdvShift)), true)
 		r.Trace()
 		if r.WantSample() {
 			r.Sample(c)
@@ -254,6 +278,16 @@ func runC12(r *rep.R) {
 		for adv := 0; adv < 16; adv++ {
 			for order := 0; order < 3; order++ {
 				do(c12Case{Prefs: l, Adv: adv, AdvOrder: order})
+			}
+		}
+	}
+	// part A': the advertisement preceded by 3..40 bytes of other records (a
+	// suite whose encoding ends in zero bytes among them): chunk boundaries at
+	// every offset of every record
+	for shift := 3; shift <= 40; shift++ {
+		for _, l := range [][]int{{0, 1}, {1, 0}, {2, 0, 1}, nil} {
+			for _, adv := range []int{0x3, 0x2, 0x1, 0x6} {
+				do(c12Case{Prefs: l, Adv: adv, AdvShift: shift})
 			}
 		}
 	}
